@@ -631,3 +631,33 @@ Proof.
   - apply reads_v3; [exact Hok|intros _; exact Hseed].
   - apply reads_v4; [exact Hok|intros _; exact Hseed|exact Hex].
 Qed.
+
+(* ---------- the specification is consistent for serVer 1 and 2 as well ---------- *)
+Theorem spec_roundtrip_v1 : forall sh a, abs_okb a = true -> expressible V1 a = true -> a_seed_hash a = sh ->
+  dec_spec sh (enc_v1 a) = Some a.
+Proof.
+  intros sh a Hok Hex Hseed. destruct (expressible_12 a Hex) as [Ho Hem].
+  destruct (abs_ok_parts a Hok) as [Hent [Hth0 [Hth [Hemp [Hord [Hsd Hcnt]]]]]].
+  pose proof (entries_lt64 a Hok) as H64.
+  unfold enc_v1.
+  set (img := [3; 1; S_FAMILY_THETA; 0; 0; 0; 0; 0] ++ le_bytes 4 (cnt_of a) ++ [0; 0; 0; 0] ++ le_bytes 8 (a_theta a) ++ entry_bytes a).
+  assert (Hlen : length img = (24 + 8 * length (a_entries a))%nat).
+  { unfold img, entry_bytes. rewrite !app_length, !le_bytes_length, flat_map_le8_length. cbn [length]. lia. }
+  assert (Ec : u 4 8 img = cnt_of a) by (unfold img; apply u_app; [reflexivity|exact Hcnt]).
+  assert (Et : u 8 16 img = a_theta a).
+  { unfold img. rewrite !app_assoc. rewrite <- (app_assoc _ (le_bytes 8 (a_theta a))).
+    apply u_app; [rewrite !app_length, !le_bytes_length; reflexivity|]. change (256 ^ N.of_nat 8) with M64. unfold M64, S_MAX_THETA in *. lia. }
+  assert (Eh : hashes (length (a_entries a)) 24 img = a_entries a).
+  { unfold img, entry_bytes. rewrite !app_assoc. rewrite <- (app_nil_r (flat_map (le_bytes 8) (a_entries a))). rewrite app_assoc.
+    rewrite <- app_assoc. apply hashes_flat; [rewrite !app_length, !le_bytes_length; reflexivity|exact H64]. }
+  unfold dec_spec. rewrite has_true by lia. cbn [negb].
+  assert (E2 : nth 2 img 0 = S_FAMILY_THETA) by reflexivity. assert (E1 : nth 1 img 0 = 1) by reflexivity.
+  rewrite E2, E1. change (S_FAMILY_THETA =? S_FAMILY_THETA) with true. cbn [negb].
+  change (1 =? 3) with false. change (1 =? 4) with false. change (1 =? 2) with false. change (1 =? 1) with true. cbv iota.
+  unfold dec_v1. rewrite has_true by lia. cbn [negb].
+  rewrite Ec. unfold cnt_of at 1 2. rewrite Nat2N.id. rewrite has_true by lia. rewrite Et, Eh.
+  apply tabs_eq; try congruence. rewrite Hem. unfold cnt_of, est.
+  destruct (length (a_entries a)); cbn [Nat.eqb N.of_nat]; [|reflexivity].
+  change (0 =? 0) with true. cbn [andb].
+  destruct (N.ltb_spec (a_theta a) S_MAX_THETA); destruct (N.eqb_spec (a_theta a) S_MAX_THETA); try reflexivity; lia.
+Qed.
